@@ -11,6 +11,7 @@ from rules.common import *
 from lenflow import State
 from framework import VERIF
 import tables
+import layout
 
 
 def spec():
@@ -303,9 +304,12 @@ def run_config(chk, config):
         r2 = e2.analyse(wf["key"], name="%s::write" % vname)
         firsts = set()
         for s2, _ in r2:
-            toks = [ev for ev in s2.events() if ev[0] == "w"]
-            if toks and toks[0][2] == "write_u16_be" and isinstance(toks[0][3], VInt) and toks[0][3].lin.is_const():
-                firsts.add(toks[0][3].lin.c)
+            # the first two octets of the payload encoding, however they are emitted (a 16-bit write, part of a
+            # pre-assembled array): the attribute type
+            octs = layout.writer_octets(e2, s2, layout.wtokens(e2, s2))
+            v2 = layout.compose_octets(e2, s2, octs[:2]) if len(octs) >= 2 else None
+            if v2 is not None and v2.is_const():
+                firsts.add(v2.c)
             else:
                 firsts.add(None)
         if len(firsts) == 1 and None not in firsts:
